@@ -243,7 +243,27 @@ def find_source(W, ts):
     return ['raw', ts]
 
 
-def remove_all_call(f, ids, v):
+class FilterBoom(Exception):
+    """raised by a caller's filter function (outcome class 19: none of the library's own exception types)"""
+
+
+def raising_key(ids):
+    """a filter that matches the named ids and, once it has matched, raises at the next task it is asked about"""
+    state = {'hit': False}
+
+    def key(t):
+        if state['hit']:
+            raise FilterBoom('the filter cannot judge task %r' % (t.id,))
+        if t.id in ids:
+            state['hit'] = True
+            return True
+        return False
+    return key
+
+
+def remove_all_call(f, ids, v, how=None):
+    if how and how.get('raise_after'):
+        return f.remove_all(raising_key(ids))
     if v == 'all':
         return f.remove_all()
     if v == 'key':
@@ -358,7 +378,7 @@ def execute(W, op, how):
         ch_facade(W, o, how).reorder(list(ids) if v != 'tuple' else tuple(ids))
     elif k == 'ChRemoveAll':
         _, o, ids = op
-        remove_all_call(ch_facade(W, o, how), ids, v)
+        remove_all_call(ch_facade(W, o, how), ids, v, how)
     elif k == 'LnAppend':
         _, d, t, x = op
         ln_facade(W, d, t, how).append(W.o(x))
@@ -438,7 +458,7 @@ def execute(W, op, how):
         W.wbss[w].remove(W.o(t))
     elif k == 'WbsRemoveAll':
         _, w, ids = op
-        remove_all_call(W.wbss[w], ids, v)
+        remove_all_call(W.wbss[w], ids, v, how)
     elif k == 'SetEst':
         _, t, e = op
         W.objs[t].estimate = e
@@ -859,6 +879,11 @@ class Gen:
         if len(users) < 2 or (need and rng.random() < min(1.0, 3.0 * need / left)):
             if need:
                 return self.gen_create(V)
+        if getattr(self, 'raise_filters', False) and self.rng2.random() < 0.3:
+            for g in (self.g_WbsRemoveAll, self.g_ChRemoveAll):
+                r = g(V)
+                if r is not None:
+                    return r
         if self.deep_left > 0 and rng.random() < 0.75:       # an aimed episode in progress (g_DeepLink)
             self.deep_left -= 1
             r = self.g_DeepLink(V)
@@ -1112,6 +1137,8 @@ class Gen:
         if not V.kids(o) and self.rng.random() < 0.8:
             return None
         ids, v = self.ids_arg([V.tid(x) for x in V.kids(o)])
+        if getattr(self, 'raise_filters', False) and ids and self.rng2.random() < 0.7:
+            return ['ChRemoveAll', o, ids], {'facade': k, 'v': 'key', 'raise_after': True}
         return ['ChRemoveAll', o, ids], {'facade': k, 'v': v}
 
     def ln_owner(self, V, d):
@@ -1790,6 +1817,10 @@ class Gen:
             if len(tids) >= 3:
                 ids = tids
                 self.rng2.shuffle(ids)
+        if getattr(self, 'raise_filters', False) and ids and self.rng2.random() < 0.7:
+            # histories of their own (seeds 'rf-...'): the caller's filter raises after its first match - the call is
+            # rejected and nothing may have been removed
+            return ['WbsRemoveAll', w, ids], {'v': 'key', 'raise_after': True}
         return ['WbsRemoveAll', w, ids], {'v': v}
 
     def g_SetEst(self, V):
@@ -1821,6 +1852,7 @@ def gen_history(seed):
     W = World()
     G = Gen(rng, W)
     G.seed_text = str(seed)
+    G.raise_filters = str(seed).startswith('rf-')
     ids = G.ids + [G.unused_id]
     steps = []
     snap = W.snapshot()
